@@ -821,3 +821,69 @@ def znot(x):
 
 def zimp(a, b):
     return zor(znot(a), b)
+
+
+# --------------------------------------------------------------------------- history: one earlier call, then the call
+
+def sibling(fr, fresh, prefix="p_"):
+    """A second frame sharing every field object of fr except the symbolic fields named in `fresh`, which get new
+    variables (and, for mixed-case frames, its own letter case): the frame "seen just before"."""
+    parts = []
+    for f in fr.order:
+        short = f.name[len(fr.prefix):] if isinstance(f, Field) and fr.prefix and f.name.startswith(fr.prefix) else getattr(f, "name", None)
+        if isinstance(f, Field) and f.var is not None and short in fresh:
+            parts.append(Field(prefix + short, f.width, f.kind))
+        else:
+            parts.append(f)
+    self = Frame.__new__(Frame)
+    self.fields, self.order = {}, parts
+    for f, g in zip(fr.order, parts):
+        if isinstance(g, Field):
+            for k, v in fr.fields.items():
+                if v is f:
+                    self.fields[k] = g
+    self.nbits = fr.nbits
+    self.bits = [b for f in parts for b in f.bits]
+    self.case, self.prefix = fr.case, prefix
+    n = self.nbits // 4
+    self.casev = list(fr.casev) if fr.case != "mixed" else [z3.Bool("%scase%d" % (prefix, i)) for i in range(n)]
+    self.msg = mkstr([HexChar(self.bits[4 * i:4 * i + 4], self.casev[i]) for i in range(n)])
+    return self
+
+
+def decide_after(item, label, fr, fr0, prior, fn_sym, path, post, maxpaths=20000, args_of=None):
+    """History independence, decided symbolically: `prior` = [(dotted path, symbolic callable)] is run on the earlier
+    frame fr0 first (whatever it returns or raises is discarded), then fn_sym() on fr in the same run, from the
+    pristine module state; `post` (the property's own single-call claim about fr) must hold for the second outcome on
+    every joint path.  A counterexample is replayed as that call sequence in a fresh interpreter."""
+    def both():
+        for _, g in prior:
+            try:
+                g()
+            except Exception:       # noqa   outcome of the earlier call: irrelevant (steering exceptions pass through)
+                pass
+        return fn_sym()
+    paths = item.explore(both, maxpaths=maxpaths)
+    if not paths:
+        raise HarnessError("%s/%s: no feasible path" % (item.name, label))
+    for p in paths:
+        kind, val = p.kind, p.value
+        claim = _call_post(post, kind, type(val).__name__ if kind == "exc" else val, PostCtx(None, p))
+
+        def replay(model, _p=p):
+            m0, m1 = fr0.concrete(model), fr.concrete(model)
+            a0 = args_of(model, m0) if args_of else [m0]
+            a1 = args_of(model, m1) if args_of else [m1]
+            calls = [[pp, a0] for pp, _ in prior] + [[path, a1]]
+            seq = fresh_driver("call_sequence", calls)
+            if seq[0] != "ret":
+                raise HarnessError("call_sequence driver failed: %r" % (seq,))
+            real = seq[1][-1]
+            conc = {"calls": calls, "msg": m1}
+            c2 = _call_post(post, real[0], real[1], PostCtx(conc, _p, model))
+            if z3.is_expr(c2):
+                c2 = z3.is_true(ev_term(model, c2))
+            return (not c2), conc, "after %s, %s(%s) -> %r violates the property" % (
+                ", ".join("%s(%s)" % (pp.split(".")[-1], m0) for pp, _ in prior), path.split(".")[-1], m1, jsonable(real[:2])), real
+        item.prove(label, p.pc, claim, replay, path=p)
+    return paths
